@@ -1125,6 +1125,31 @@ func (g *gen) genDevice(b *vdev) (*vdev, []string) {
 			}
 		}
 	}
+	// map-values whose DN is a single word lose their quotes on the device; a RADIUS / TACACS+ server group of the administrator
+	if r.Chance(40) {
+		for _, x := range a.Blocks {
+			if k, _ := headKind(x.words()); k == "ldapmap" {
+				for j, sx := range x.Subs {
+					if sw := strings.Fields(sx); len(sw) == 4 && sw[0] == "map-value" && strings.HasPrefix(sw[2], `"`) {
+						sw[2] = strings.Trim(sw[2], `"`)
+						x.Subs[j] = strings.Join(sw, " ")
+						say("map-value-without-quotes")
+					}
+				}
+			}
+		}
+	}
+	if r.Chance(10) && !a.exists(ref{"aaa", "RAD"}) {
+		proto := Pick(r, []string{"radius", "tacacs+"})
+		a.add("aaa-server RAD protocol " + proto)
+		a.add("aaa-server RAD (inside) host 10.2.7.1", "key *****")
+		a.add("aaa-server RAD (inside) host 10.2.7.2", "key *****", "timeout 5")
+		if !a.exists(ref{"tg", "MANUAL-RA"}) {
+			a.add("tunnel-group MANUAL-RA type remote-access")
+			a.add("tunnel-group MANUAL-RA general-attributes", "authentication-server-group RAD")
+		}
+		say("manual-aaa-server-" + proto)
+	}
 	// built-in objects partly defined on the device only (they are anchors with fixed names: compared, never renamed or cleared)
 	if r.Chance(8) && a.findHead("tunnel-group DefaultRAGroup ipsec-attributes") == nil {
 		a.add("tunnel-group DefaultRAGroup ipsec-attributes", "trust-point TP9")
